@@ -13,7 +13,8 @@ c04 = _load('c04')
 
 LEVEL = 'proof'
 TRUSTED_BASE = c48.TRUSTED_BASE
-ASSUMPTIONS = c48.ASSUMPTIONS + ['dynamic path, no-wait tail: proved per worker (exit ticket only after the last claimed chunk; exit action with that ticket; tail only for the last exit ticket); that the last exit ticket is drawn after all others is the counting argument over fetch_add stated in specs/c14_dynamic.c (atomic RMW axiom), and `c * chunkSize` is an uninterpreted injective function of the chunk number there',
+ASSUMPTIONS = c48.ASSUMPTIONS + ['dynamic / adaptive paths: worker i uses states[i] and the caller states[numToLaunch] (state-binding units: the std::advance arguments are extracted and proved); that the workers of the adaptive path (runStripeWorker) touch only the state they are given is C12/C13 territory',
+                                 'dynamic path, no-wait tail: proved per worker (exit ticket only after the last claimed chunk; exit action with that ticket; tail only for the last exit ticket); that the last exit ticket is drawn after all others is the counting argument over fetch_add stated in specs/c14_dynamic.c (atomic RMW axiom), and `c * chunkSize` is an uninterpreted injective function of the chunk number there',
                                  'dynamic/adaptive paths bind worker i to states[i] and the caller to states[numToLaunch] (read off std::advance(stateIt, idx) in their generator lambdas; inside the stubs)',
                                  'the states container is rendered by its size']
 EXPLANATION = 'ghost state-ownership ledger over the extracted parallel_for control flow + initStates + static index->state remap'
@@ -110,6 +111,45 @@ def dynamic_pieces(ctx):
     return shape_ok
 
 
+def state_sites(ctx):
+    """R12: the state object each invocation of the dynamic / adaptive paths dereferences, as the argument of std::advance on an iterator that
+    starts at states.begin() (directly or through a copy captured by the generator lambda)"""
+    r = ctx.repo
+    for tag, path, sig in (('dyn1', PD, r'void\s+parallel_for_dynamicImpl\s*\([^)]*\)'), ('dynM', PD, r'void\s+parallel_for_dynamicMultiGroupImpl\s*\([^)]*\)'),
+                           ('adapt', PF, r'void\s+parallel_for_adaptiveWaitDispatch\s*\([^)]*\)')):
+        fn = r.function(path, sig)
+        t = fn.text
+        mb = re.search(r'auto\s+(\w+)\s*=\s*states\.begin\(\);\s*(?:auto\s+worker\s*=|taskSet\.scheduleBulk|if\s*\(numToLaunch\s*>\s*0\))', t) or re.search(r'auto\s+(stateBegin)\s*=\s*states\.begin\(\);', t)
+        if not mb:
+            raise X.ExtractionError('%s: no iterator initialised from states.begin() in front of the bulk generator' % tag)
+        begin = mb.group(1)
+        mg = re.search(r'taskSet\.scheduleBulk\(\s*(?:static_cast<size_t>\(numToLaunch\)|numToLaunch)\s*,\s*\[([^\]]*)\]\s*\(size_t\s+(\w+)\)\s*\{', t)
+        if not mg or not re.search(r'\b' + begin + r'\b', mg.group(1)):
+            raise X.ExtractionError('%s: bulk generator lambda over numToLaunch capturing %s not found' % (tag, begin))
+        b = t.index('{', mg.end() - 1)
+        body = t[b:X.match_balanced(t, b, '{', '}')]
+        ma = re.findall(r'auto\s+(\w+)\s*=\s*' + begin + r';\s*std::advance\(\1,\s*static_cast<ptrdiff_t>\(([^();]+)\)\);', body)
+        if len(ma) != 1 or not re.search(r'\[&\w+\s*=\s*\*' + ma[0][0] + r'\b', body):
+            raise X.ExtractionError('%s: generator does not bind its state through one std::advance on a copy of %s' % (tag, begin))
+        ln = fn.line_start + t.count('\n', 0, b)
+        pc = X.Piece.__new__(X.Piece); pc.relpath, pc.text, pc.line_start, pc.line_end, pc.rules = path, body, ln, ln + body.count('\n'), [('R12', 1)]
+        pc.sha = __import__('hashlib').sha256(body.encode()).hexdigest()[:16]
+        X.write_piece(ctx.gen, 'SITE_%s_worker.body.inc' % tag, '{ %sreturn (size_t)((ptrdiff_t)(%s)); }   /* std::advance(%s, ...) in the generator lambda */' % ('' if mg.group(2) == 'i' else 'size_t %s = i; ' % mg.group(2), ma[0][1], ma[0][0]), pc, ctx.extract_log)
+        rest = t[X.match_balanced(t, b, '{', '}'):]
+        mc = re.findall(r'auto\s+(\w+)\s*=\s*states\.begin\(\);\s*std::advance\(\1,\s*static_cast<ptrdiff_t>\(([^();]+)\)\);(?:(?!std::advance)[\s\S])*?worker\(\*\1\b', rest)
+        if len(mc) != 1:
+            raise X.ExtractionError('%s: the calling thread does not bind its state through one std::advance from states.begin()' % tag)
+        pc2 = X.Piece.__new__(X.Piece); pc2.relpath, pc2.text, pc2.line_start, pc2.line_end, pc2.rules = path, rest, fn.line_start + t.count('\n', 0, len(t) - len(rest)), fn.line_end, [('R12', 1)]
+        pc2.sha = __import__('hashlib').sha256(rest.encode()).hexdigest()[:16]
+        X.write_piece(ctx.gen, 'SITE_%s_caller.body.inc' % tag, '{ return (size_t)((ptrdiff_t)(%s)); }   /* std::advance(%s, ...) of the calling thread */' % (mc[0][1], mc[0][0]), pc2, ctx.extract_log)
+
+
+def site_units():
+    return [Unit('state binding: %s %s' % (nm, who), 'cbmc', 'specs/c14_dynamic.c', 'SITE_%s_%s' % (tag, who), defines={'DYN_SIZE_T': 'uint64_t', 'DYN_INT_T': 'int64_t', 'DYN_MAXCHUNKS': '4'},
+                 expect=[r'postcondition'], timeout=120)
+            for tag, nm in (('dyn1', 'parallel_for_dynamicImpl'), ('dynM', 'parallel_for_dynamicMultiGroupImpl'), ('adapt', 'parallel_for_adaptiveWaitDispatch')) for who in ('worker', 'caller')]
+
+
 def dynamic_units(ctx, shapes):
     shape_ok, mshape_ok = shapes
     units = []
@@ -163,6 +203,8 @@ def build(ctx):
                           expect=[r'postcondition\.5', r'precondition'], flags=['--unwind', '9'],
                           replay=dict(prog='replay/c48_replay.cpp', args=lambda ce, u: ['skeleton', 'T=' + u.inst] + ['%s=%s' % (k, str(v).rstrip('ulUL')) for k, v in sorted(ce.items())])))
     units += static_units(ctx, [c17.INSTS[4], c17.INSTS[7]] if ctx.tier == 'quick' else c17.INSTS)
-    units += dynamic_units(ctx, dynamic_pieces(ctx))
+    shapes = dynamic_pieces(ctx)
+    state_sites(ctx)
+    units += dynamic_units(ctx, shapes) + site_units()
     units.append(Unit('initStates', 'intwp', 'specs/c14_states.c', 'initStates_size', defines=c17.inst_defines('int64_t', 'uint64_t', 1), expect=[r'postcondition\.3', r'loop_invariant_step', r'decreases'], timeout=120))
     return units
